@@ -50,6 +50,7 @@ type Interp struct {
 	WidenAfter int // arrivals at a loop header that keep concrete loop-carried values (unrolling) before widening starts
 	MaxLoop  int // visits of one loop header per trace before the partition is cut
 
+	TraceStores bool // emit a "store-cell" event for stores into labelled (symbolic) cells
 	SnapshotPC bool // events carry a copy of the decided atoms
 	stack      []*ssa.Function
 	EagerWiden bool // loop-carried values are abstracted to a loop-variant symbol from the first arrival on
@@ -626,6 +627,9 @@ func (in *Interp) callFn(fn *ssa.Function, args []AVal, bind []AVal) AVal {
 				a := in.val(fr, x.Addr)
 				if pp, ok := a.(Ptr); ok {
 					fr.stored[pp.C] = true
+					if in.TraceStores && pp.C.Label != "" {
+						in.Emit("store-cell", ins, Sym{K: pp.C.Label}, in.val(fr, x.Val))
+					}
 				}
 				in.store(a, in.val(fr, x.Val), ins)
 			case *ssa.MapUpdate:
